@@ -8,7 +8,9 @@ random program of get_message / pending / len / iteration / list() calls runs
 between the feeds; a FIFO counter model predicts every return value.  The same
 streams also go through ParserQueue.put_bytes/poll/iterpoll/get.
 """
+import itertools
 import random
+import threading
 
 import mido
 from mido import Message, Parser
@@ -367,16 +369,45 @@ def _checkpoint_case(ctx, data, cut, how):
 
 
 def _run_queue_case(ctx, data, cuts, rseed):
-    case = lambda: {'kind': 'queue', 'bytes': bytes(data), 'cuts': list(cuts), 'rseed': rseed}  # noqa: E731
+    case = lambda: {'kind': 'queue', 'bytes': bytes(data), 'cuts': list(cuts), 'rseed': rseed, 'delivered_by': who}  # noqa: E731
     produced, ref = reference(data)
     rng = random.Random(rseed)
     cuts = tuple(sorted({min(max(c, 0), len(data)) for c in cuts}))
     q = ParserQueue()
     got = []
     pos = 0
+    # who delivers: a backend hands the chunks over from whatever thread its driver calls back on - the same one every time,
+    # a new one for every chunk, or two taking turns (one at a time: the calls never overlap)
+    rng_who = random.Random(f'{rseed}:who')
+    who = rng_who.choice(('caller', 'caller', 'new-thread-each', 'two-threads-alternating')) if len(data) < 4000 else 'caller'
+    pool = None
+    if who == 'two-threads-alternating':
+        from concurrent.futures import ThreadPoolExecutor
+        pool = [ThreadPoolExecutor(1), ThreadPoolExecutor(1)]
+    nput = [0]
+
+    def put(arg):
+        nput[0] += 1
+        if who == 'caller':
+            q.put_bytes(arg)
+        elif who == 'new-thread-each':
+            err = []
+
+            def body():
+                try:
+                    q.put_bytes(arg)
+                except BaseException as exc:
+                    err.append(exc)
+            th = threading.Thread(target=body)
+            th.start()
+            th.join()
+            if err:
+                raise err[0]
+        else:
+            pool[nput[0] % 2].submit(q.put_bytes, arg).result()
     try:
         for chunk in gen.split_at(list(data), cuts):
-            q.put_bytes(rng.choice((list, bytes, bytearray))(chunk))
+            put(rng.choice((list, bytes, bytearray))(chunk))
             pos += len(chunk)
             r = rng.random()
             if r < 0.3:
@@ -423,6 +454,9 @@ def _run_queue_case(ctx, data, cuts, rseed):
         ctx.check('get_message None iff none pending', q.poll() is None, 'queue-not-empty', case, None)
     except Exception as exc:
         ctx.fail('no exception', f'queue:{type(exc).__name__}', case, f'{type(exc).__name__}: {exc}')
+    finally:
+        for p in pool or ():
+            p.shutdown(wait=False)
 
 
 HAND = [
@@ -483,12 +517,16 @@ def run(ctx):
     # longer streams, random chunkings
     nl = 300 if ctx.tier == 'quick' else 20000
     for j in range(nl):
-        data = make_stream(ctx.rng, ctx.rng.randrange(2, 7))
+        pieces = [make_stream(ctx.rng, 1) for _ in range(ctx.rng.randrange(2, 7))]
+        data = [b for p in pieces for b in p]
+        # one call per piece (whole message / cut-short message / stray bytes / real-time byte), and some of those calls merged
+        bounds = tuple(itertools.accumulate(len(p) for p in pieces))[:-1]
+        aligned = [bounds, tuple(b for b in bounds if ctx.rng.random() < 0.6)]
         if j % 25 == 0:
             t = 'sysex'
             data = data + midi1.encode(t, {'data': tuple(ctx.rng.randrange(128) for _ in range(
                 ctx.rng.choice((200, 1000, 5000))))}) + data
-        for ci, cuts in enumerate(gen.chunkings(ctx.rng, len(data), 4)):
+        for ci, cuts in enumerate(list(gen.chunkings(ctx.rng, len(data), 4)) + aligned):
             conts = tuple(ctx.rng.choice(list(CONT)) for _ in range(3))
             rseed = f'{ctx.seed}:{ctx.shard}:L{j}:{ci}'
             if ci % 2:
